@@ -218,6 +218,47 @@ def run_shard(cid):
     return part.result()
 
 
+def run_shadowed(_):
+    """template-local writers of a global whose name is declared again *later* in the same template: what the function writes is
+    the global (the later declaration is not in scope inside it), so the contexts must still reject it"""
+    part = engine.Part()
+    w = engine.worker("fast")
+    writers = {"assign": "v = 1;", "increment": "v++;", "array-element": "w[0] = 1;", "compound": "v += other;"}
+    shadows = {"after-the-function": ("{F}{C}int v; int w[2];", ), "between-function-and-caller": ("{F}int v; int w[2];{C}",),
+               "no-later-declaration": ("{F}{C}",), "typedef-of-that-name-later": ("{F}{C}typedef int[0,1] v_t;",)}
+    ctxs = {"guard": lambda d, e: X.nta(GDECL, [T(decl=d, guard="%s == 1" % e)], SYS),
+            "invariant": lambda d, e: X.nta(GDECL, [T(decl=d, inv="%s >= 0" % e)], SYS),
+            "sync-index": lambda d, e: X.nta(GDECL, [T(decl=d, sync="c[%s]!" % e)], SYS)}
+    docs, meta = [], []
+    for wid, stmt in writers.items():
+        for sid, (layout,) in shadows.items():
+            F = "int lf() { %s return k; } int lr() { return v + w[1]; }\n" % stmt
+            C = "int lc() { return lf(); } int lcr() { return lr(); }\n"
+            d = layout.format(F=F, C=C)
+            for cid, mk in ctxs.items():
+                for call, role in (("lf()", "write"), ("lc()", "write"), ("lr()", "twin"), ("lcr()", "twin")):
+                    docs.append(mk(d, call))
+                    meta.append(("%s:%s:%s:%s" % (cid, wid, sid, call), role))
+    res = X.run_docs(w, docs, want=["noinv"], batch=50)
+    for (key, role), doc, r in zip(meta, docs, res):
+        part.count()
+        rp = {"op": "xml", "buf": doc}
+        if engine.check_crash(part, PID, r, key, rp):
+            continue
+        part.nontrivial_case("shadowed:" + key)
+        acc = X.accepted(r)
+        if role == "write" and acc:
+            part.outcome("write-accepted")
+            part.violation("write-accepted:later-declaration:" + key, "%s: a template-local function writes a global whose name is declared again later "
+                           "in the template; the model is accepted" % key, rp)
+        elif role == "twin" and not acc:
+            part.outcome("twin-rejected")
+            part.violation("twin-rejected:later-declaration:" + key, "%s: the read-only twin is rejected: %s" % (key, X.msgs(r)[:2]), rp)
+        else:
+            part.outcome("write-rejected" if role == "write" else "twin-accepted")
+    return part.result()
+
+
 def main():
     nforms = len(write_forms())
     rep = engine.Report(PID, "exploration",
@@ -231,6 +272,7 @@ def main():
                         % (len(CONTEXTS) + len(QUERY_CONTEXTS), nforms, len(WRAPPERS)))
     for res in engine.pmap(run_shard, list(CONTEXTS) + list(QUERY_CONTEXTS)):
         rep.merge(res)
+    rep.merge(run_shadowed(None))
     rep.assumptions = ["in compile-time contexts the twin reads constants only (a read of a variable is rejected there for C13's reason)",
                        "small scope: call chains up to depth 3, one representative per statement form"]
     sys.exit(rep.finish())
